@@ -1,4 +1,5 @@
 import FloVerif.Driver.C05
+import FloVerif.Driver.C19
 import FloVerif.Driver.C01
 import FloVerif.Driver.C13
 import FloVerif.Driver.C06
@@ -14,6 +15,7 @@ open Driver
 def dispatch (prop op stream : String) (ins outs : List String) : List C05.Out :=
   match prop with
   | "C05" => C05.handle op stream ins outs
+  | "C19" => C19.handle op ins outs
   | "C13" => C13.handle op ins outs
   | "C06" => C06.handle op stream ins outs
   | "C04" => C04.handle op stream ins outs
